@@ -744,16 +744,19 @@ def run(ctx):
     exact_q = [c for c in qcases if quantity_case_exact(c, dflt)]
     badx = coqrun.eval_cases(ctx, "quantities_exact", pre, [c["lit"] for c in exact_q], Q_CHECK_EXACT, case_type=Q_TYPE)
     seen = set()
-    for c, which in [(qcases[i], "FO") for i in badq[:25]] + [(exact_q[i], "QO") for i in badx[:25]]:
+
+    def spec_of(c):
+        if c["fn"] == "assert_equal":
+            return spec_assert_equal(c["lhs"], c["rhs"], c["rel"], c["abs"], c["dimension"], 0.001, c["obs"][1])
+        o = c["obs"]
+        return spec_assert_equal(c["lhs"], c["rhs"], c["rel"], c["abs"], c["dimension"], 0.001,
+            None if (o[0] == "ok" and o[1]) else (qx.E_ASSERT if o[0] == "ok" else o[1]))
+    decided = [(c, which, spec_of(c)) for c, which in [(qcases[i], "FO") for i in badq[:200]] + [(exact_q[i], "QO") for i in badx[:50]]]
+    decided.sort(key=lambda t: t[2] is not False)          # disagreements with a concrete failing input first
+    for c, which, ok in decided[:40]:
         if id(c) in seen:
             continue
         seen.add(id(c))
-        if c["fn"] == "assert_equal":
-            ok = spec_assert_equal(c["lhs"], c["rhs"], c["rel"], c["abs"], c["dimension"], 0.001, c["obs"][1])
-        else:
-            o = c["obs"]
-            ok = spec_assert_equal(c["lhs"], c["rhs"], c["rel"], c["abs"], c["dimension"], 0.001,
-                None if (o[0] == "ok" and o[1]) else (qx.E_ASSERT if o[0] == "ok" else o[1]))
         ctx.violation(f"C08:{c['fn']}:{c['lsrc']}:{c['rsrc']}:{c['rel']!r}:{c['abs']!r}:{c['dim']}",
             f"{c['fn']}({c['lsrc']}, {c['rsrc']}, rel={c['rel']!r}, abs={c['abs']!r}, dimension={c['dim']}) -> {c['obs'][1:]}",
             {"kind": "disagreement", "stream": "quantities", "fn": c["fn"], "lhs": c["lsrc"], "rhs": c["rsrc"], "rel": repr(c["rel"]),
